@@ -63,8 +63,7 @@ func clEmbeds(shape, kinds []string) bool {
 	return i == len(shape)
 }
 
-// clSyncWhileLeaving: the history contains "leave m" and, later, a push/pull or a
-// join in which m takes part.
+// clSyncWhileLeaving: the history contains "leave m" and, later, a push/pull or a join.
 func clSyncWhileLeaving(hist []string, m string) bool {
 	left := false
 	for _, a := range hist {
@@ -72,7 +71,18 @@ func clSyncWhileLeaving(hist []string, m string) bool {
 		if f[0] == "leave" && f[1] == m {
 			left = true
 		}
-		if left && (f[0] == "pushpull" || f[0] == "join") && (f[1] == m || f[2] == m) {
+		if left && (f[0] == "pushpull" || f[0] == "join") {
+			return true // any state sync while m's leave is in progress can carry its leave time as a join time
+		}
+	}
+	return false
+}
+
+// clForceLeft: the history contains a force-leave of member m.
+func clForceLeft(hist []string, m string) bool {
+	for _, a := range hist {
+		f := strings.Fields(a)
+		if f[0] == "forceleave" && f[2] == m {
 			return true
 		}
 	}
@@ -87,11 +97,11 @@ func clusterRun(ctx *vc.Ctx, faults bool) {
 	var cfgs []cfg
 	switch {
 	case !faults && !ctx.Thorough():
-		cfgs = []cfg{{2, 3, 11, false}, {3, 2, 6, false}, {3, 2, 6, true}}
+		cfgs = []cfg{{3, 2, 6, true}, {2, 3, 10, false}, {3, 2, 5, false}}
 	case !faults:
 		cfgs = []cfg{{2, 4, 14, false}, {3, 3, 8, false}, {3, 3, 8, true}}
 	case !ctx.Thorough():
-		cfgs = []cfg{{2, 3, 9, false}, {3, 3, 5, false}, {3, 2, 7, true}}
+		cfgs = []cfg{{3, 2, 6, true}, {2, 3, 8, false}, {3, 3, 4, false}}
 	default:
 		cfgs = []cfg{{2, 4, 12, false}, {3, 3, 7, false}, {3, 3, 9, true}}
 	}
@@ -117,6 +127,13 @@ func clusterRun(ctx *vc.Ctx, faults bool) {
 				class, member = class[:i], class[i+8:]
 			}
 			v.Class = class
+			if (class == "truth=alive reported=leaving" || class == "truth=alive reported=left") && clForceLeft(hist, member) {
+				// root cause of the second recorded finding: the member was force-left while it
+				// was unreachable; the left-list of a push/pull carries that leave as status
+				// time + 1, which equals the Lamport time of the member's refuting join
+				ctx.Violation(scn, "truth=alive reported=leaving after a force-leave of the member spread through a push/pull left-list", fmt.Sprintf("shortest history: %v\n%s", hist, v.Message), map[string]interface{}{"scenario": scn, "history": hist})
+				return
+			}
 			if class == "truth=left reported=failed" && clSyncWhileLeaving(hist, member) {
 				// root cause named by the recorded finding: a state sync (push/pull or join) with the
 				// member while its graceful leave was in progress
